@@ -242,6 +242,26 @@ def main():
                         res.case(("projP", dim, names[st], e, p))
                         if not np.all(np.isfinite(got)) or np.abs(got - kelvin(Tp)).max() > 1e-7 * (1e-300 + np.abs(T).max()) + 1e-18:
                             res.fail(KNOWN3D if deg3[e] else f"positive part dim={dim} state={names[st]}", f"projP · eps = {got.tolist()} but the positive part of the strain is {kelvin(Tp).tolist()}", dict(dim=dim, state=names[st], strain=Eps[e, p].tolist()))
+                            continue
+                        # the whole projector, not only its action on eps: projP is the derivative of the positive part with respect to
+                        # the strain (central differences of the eigh-based positive part), away from repeated or vanishing principal values
+                        gaps_ = np.diff(np.sort(w))
+                        if a == b and np.abs(w).min() > 1e-3 * np.abs(w).max() and gaps_.min() > 1e-2 * np.abs(w).max():
+                            hfd = 1e-6 * np.abs(w).max()
+                            Pfd = np.zeros((len(Eps[e, p]), len(Eps[e, p])))
+                            for jj in range(len(Eps[e, p])):
+                                cols = []
+                                for sg in (+1, -1):
+                                    ev = Eps[e, p].copy()
+                                    ev[jj] += sg * hfd
+                                    wv, Vv = np.linalg.eigh(unkelvin(ev))
+                                    cols.append(kelvin((Vv * np.maximum(wv, 0)) @ Vv.T))
+                                Pfd[:, jj] = (cols[0] - cols[1]) / (2 * hfd)
+                            res.case(("projP-derivative", dim, names[st], e, p))
+                            errP = np.abs(projP[e, p] - Pfd).max()
+                            if errP > 1e-5:
+                                res.fail(f"positive projector is not the derivative of the positive part dim={dim} state={names[st]}",
+                                         f"max |projP - d eps+/d eps| = {errP:.2e} (central differences of the eigen-decomposition of numpy)", dict(dim=dim, state=names[st], strain=Eps[e, p].tolist()))
             except Exception as ex:  # noqa: BLE001
                 res.fail(f"spectral decomposition raises dim={dim}", f"{type(ex).__name__}: {str(ex)[:150]}", dict(dim=dim))
 
